@@ -215,6 +215,7 @@ func (p *Program) VerifyFunction(u *Universe, fn *ssa.Function) *VC {
 	h0 := vc.rootHeap("entry")
 	u.clockVar()
 	vc.clock0 = h0.get("clock")
+	vc.entryHeap = h0
 	var args []Term
 	for _, prm := range fn.Params {
 		so := u.sortOf(prm.Type())
